@@ -133,6 +133,45 @@ def multi_node(chk):
                               {"origin_host": str(oh), "origin_realm": str(orr), "ids": list(ids)})
 
 
+def concurrent_nodes(chk, rng, n):
+    """two or three nodes with the SAME local identity in one process (several connections of one host), their state-machine
+    threads ticking at the same time - every interleaving at source-line granularity of statemachine.py / process.py / setup.py:
+    each node's answer must carry the identifiers of the request that node consumed"""
+    import threadsafe
+    k = 3
+    nodes = [psmdrv.Node("server", 1) for _ in range(k)]
+    fac = c06.Factory("server", 1)
+
+    def fresh():
+        for nd in nodes:
+            nd.reset()
+            m, _t, _s = fac.loaded("cer.ok", 1, 2)
+            nd.inject(m)
+            nd.tick()
+            nd.take_emitted()
+
+    def make_threads(r):
+        use = r.sample(range(k), r.choice([2, 2, 3]))
+        threads, desc = [], []
+        for j, i in enumerate(use):
+            name = r.choice(["dwr.ok", "dwr.ok", "cer.ok", "dpr.ok"])
+            hbh, e2e = 1000 + 17 * j + r.randrange(5), 2000 + 31 * j + r.randrange(5)
+            desc.append([i, name, hbh, e2e])
+
+            def one(i=i, name=name, hbh=hbh, e2e=e2e):
+                m, _t, _s = fac.loaded(name, hbh, e2e)
+                nodes[i].inject(m)
+                exc = nodes[i].tick()
+                out = nodes[i].take_emitted()
+                return (exc, [(int.from_bytes(a.header.command_code, "big"), a.header.is_request(), int.from_bytes(a.header.hop_by_hop, "big"),
+                               int.from_bytes(a.header.end_to_end, "big")) for a in out])
+            threads.append([one])
+        return threads, {"node, request, hop-by-hop, end-to-end": desc}
+
+    threadsafe.explore(chk, "base answers of several nodes", make_threads, fresh,
+                       ("bromelia/statemachine.py", "bromelia/process.py", "bromelia/setup.py"), rng, n)
+
+
 def run(chk):
     rng = random.Random(chk.seed)
     import gen_psm
@@ -150,6 +189,7 @@ def run(chk):
     quick = chk.tier == "quick"
     c06.SEEN_CLAUSES.clear()
     multi_node(chk)
+    concurrent_nodes(chk, rng, 40 if quick else 2500)
     c06.explore(chk, rng, monitor, "sweep", quick, prop="C07", gen=history)
     c06.explore(chk, rng, monitor, "sweep-c06", quick, prop="C07", do_bfs=False)
 
